@@ -308,11 +308,14 @@ struct SetSys {
   static bool observe_one(C& L, const RecencyList& M, const char* which, std::string& what) {
     if (L.size() != M.total()) { what = vf::fmt("size:%s.size() == %zu, expected %zu", which, L.size(), M.total()); return false; }
     if (L.count() != (size_t)M.n) { what = vf::fmt("count:%s.count() == %zu, expected %d", which, L.count(), M.n); return false; }
+    // peek() on an empty set must throw; that is decided by the PEEK letter of the alphabet (and by the
+    // drain of every BFS state), not re-thrown after each of the ~10^8 steps (C++ throws are slow under ASan)
+    if (M.n == 0) return true;
     Res got;
     try { auto p = L.peek(); got = rentry(p.first, 0, (long)p.second);
     } catch (const std::out_of_range&) { got = rcode(Res::OUT_OF_RANGE);
     } catch (...) { got = rcode(Res::OTHER_EXCEPTION); }
-    Res exp = M.n ? rentry(M.e[M.n - 1].k, 0, (long)M.e[M.n - 1].s) : rcode(Res::OUT_OF_RANGE);
+    Res exp = rentry(M.e[M.n - 1].k, 0, (long)M.e[M.n - 1].s);
     if (!(got == exp)) { what = std::string("peek:") + which + ".peek(): " + got.str(false) + ", expected " + exp.str(false); return false; }
     return true;
   }
@@ -516,8 +519,10 @@ struct Checker {
   }
 
   // final drain: repeated evict_object must hand back the model's entries from least to most recent
-  void drain_one(typename Sys::C& L, RecencyList& M, const char* which, const Ctx& c) {
+  // past_the_end: also demand that one more evict_object on the emptied container throws out_of_range
+  void drain_one(typename Sys::C& L, RecencyList& M, const char* which, const Ctx& c, bool past_the_end) {
     for (int guard = 0; guard < 8; guard++) {
+      if (!M.n && !past_the_end) break;
       Res exp = M.n ? rentry(M.e[M.n - 1].k, Sys::is_map ? M.e[M.n - 1].v : 0, (long)M.e[M.n - 1].s) : rcode(Res::OUT_OF_RANGE);
       if (M.n) M.remove(M.n - 1);
       Res got = Sys::evict(L);
@@ -530,9 +535,9 @@ struct Checker {
     if (L.size() != 0 || L.count() != 0)
       fail(c, std::string(Sys::cname()) + "::drain:not-empty", [&] { return std::string("after draining ") + which + vf::fmt(": size() == %zu, count() == %zu", L.size(), L.count()); });
   }
-  void drain(World& w, const Ctx& c) {
-    drain_one(w.X, w.MX, "X", c);
-    drain_one(w.Y, w.MY, "Y", c);
+  void drain(World& w, const Ctx& c, bool past_the_end) {
+    drain_one(w.X, w.MX, "X", c, past_the_end);
+    drain_one(w.Y, w.MY, "Y", c, past_the_end);
     Canon cr;
     std::string problem;
     if (!inspect(w, cr, problem)) fail(c, std::string(Sys::cname()) + "::drain:link-invariant", [&] { return "drained containers: " + problem; });
@@ -578,7 +583,7 @@ struct Checker {
       nx = w.MX.n;
       if (mine) {
         r.states++;
-        drain(w, c);
+        drain(w, c, true);
       }
     }
     for (size_t l = 0; l < alpha.size(); l++) {
@@ -662,7 +667,7 @@ struct Checker {
           }
           if (ok) {
             Ctx c{true, &seq, len};
-            drain(w, c);
+            drain(w, c, false);
           }
           if (nontrivial) r.nontriv();
           r.ok(ok ? ok_label : bad_label);
@@ -701,6 +706,22 @@ std::vector<Op> set_alphabet(bool with_swap) {
   a.push_back(mk(PEEK));
   a.push_back(mk(CLEAR));
   if (with_swap) { a.push_back(mk(SWAP_XY)); a.push_back(mk(SWAP_YX)); a.push_back(mk(SWAP_XX)); }
+  return a;
+}
+std::vector<Op> set_medium() {  // 33 letters for the length-5 runs
+  std::vector<Op> a;
+  for (int k = 0; k < 3; k++) for (int s = 1; s < 3; s++) a.push_back(mk(INSERT, k, s));
+  for (int k = 0; k < 3; k++) a.push_back(mk(EMPLACE, k, 0));
+  for (int k = 0; k < 3; k++) a.push_back(mk(EMPLACE, k, 2));
+  for (int k = 0; k < 3; k++) a.push_back(mk(ERASE, k));
+  for (int k = 0; k < 3; k++) a.push_back(mk(TOUCH, k));
+  for (int k = 0; k < 3; k++) a.push_back(mk(TOUCH_SZ, k, 0));
+  for (int k = 0; k < 3; k++) a.push_back(mk(TOUCH_SZ, k, 1));
+  for (int k = 0; k < 3; k++) a.push_back(mk(CHANGE_SIZE, k, 2));
+  for (int k = 0; k < 3; k++) a.push_back(mk(CHANGE_SIZE, k, 0));
+  a.push_back(mk(EVICT));
+  a.push_back(mk(PEEK));
+  a.push_back(mk(CLEAR));
   return a;
 }
 std::vector<Op> set_reduced() {  // 12 letters for the length-7 runs
@@ -806,7 +827,11 @@ VF_SECTION(map_m2_bfs, 1, 1, 180) {
 VF_SECTION(set_seq, 12, 16, 120) {
   {
     Checker<SetSys> c(r, set_alphabet(false));
-    c.sequences(r.thorough() ? 5 : 4, "LRUSet full one-instance alphabet");
+    c.sequences(4, "LRUSet full one-instance alphabet");
+  }
+  if (r.thorough()) {
+    Checker<SetSys> c(r, set_medium());
+    c.sequences(5, "LRUSet medium alphabet");
   }
   if (r.thorough()) {
     Checker<SetSys> c(r, set_reduced());
@@ -817,7 +842,7 @@ VF_SECTION(set_seq, 12, 16, 120) {
 VF_SECTION(map_seq, 12, 16, 120) {
   {
     Checker<MapSys> c(r, map_alphabet({0, 1, 2}, {10, 11}, false));
-    c.sequences(r.thorough() ? 4 : 3, "LRUMap full one-instance alphabet");
+    c.sequences(3, "LRUMap full one-instance alphabet");
   }
   {
     Checker<MapSys> c(r, map_medium());
